@@ -521,7 +521,14 @@ def t5(ctx, cfg, fs):
     w = Walker(body, max_paths=400, max_visits=2)
     frames = set()
     for pth in w.run():
-        if pth.end != 'return' or pth.ret is UNKNOWN or pth.ret[0] != 'agg' or pth.ret[2] != 'Ok':
+        if pth.end != 'return':
+            continue
+        if pth.ret is UNKNOWN:
+            # `f.write_char('\'')` as the tail expression: the value returned IS the result of the last write (Ok when it succeeded)
+            rs = [r for r in provenance(body, ['cp', [0, []]], pth.blocks[-1], 'term', through=None) if r.kind != 'call' or r.call.bb in pth.blocks]
+            if not (rs and all(r.kind == 'call' and r.call.is_(r'write_char$', r'write_str$') for r in rs)):
+                continue
+        elif pth.ret[0] != 'agg' or pth.ret[2] != 'Ok':
             continue
         ws = [x for x in [(c, av) for (blk, c), av in zip(pth.calls, pth.callvals) if c.is_(r'write_char$', r'write_str$')] if x[0].body is body]
         vals = [(av[1][1] if (len(av) > 1 and av[1] is not UNKNOWN and av[1][0] == 'c') else '?') for (c, av) in ws]
